@@ -325,7 +325,7 @@ class Replayer:
 
     def case_sig(self, e):
         heap, op = e[1], e[4]
-        cl = lambda i: heap[i - 1][1] if i else -1  # noqa: E731
+        cl = lambda i: heap[i - 1][1] if i > 0 else (-1 if i == 0 else -100 - (-i) % 16)  # noqa: E731
         return (self.info["t"], self.label, op[0], cl(op[1]), cl(op[2]), op[3],
                 tuple(cl(i) for i in op[4]), tuple(f for f, _ in op[5]), tuple(e[6]), e[5] > len(heap))
 
@@ -474,7 +474,14 @@ def random_history(choose, nmax: int, length: int, heap_cap: int = 9) -> dict:
     for _ in range(length):
         ns = [i + 1 for i, x in enumerate(rec.live) if t.observe(x)[0] == "ns"]
         ra = [i + 1 for i, x in enumerate(rec.live) if t.observe(x)[0] == "ra"]
-        cls_of = lambda i: t.observe(rec.live[i - 1])[1]  # noqa: E731
+        # namespaces extracted from live sets (set[cls] / iteration), as operands -(16*set+cls)
+        refs = [-(16 * i + k) for i in ra if i < 200
+                for k in range(1, n + 1) if t.observe(rec.live[i - 1])[2][k - 1]]
+        if refs and ns:
+            ns = ns + [refs[choose(len(refs))] for _ in range(1 + len(ns) // 2)]
+        elif refs:
+            ns = [refs[choose(len(refs))]]
+        cls_of = lambda i: (t.observe(rec.live[i - 1])[1] if i > 0 else (-i) % 16)  # noqa: E731
         full = len(rec.live) >= heap_cap
         names = ["NsNew"]
         if ns:
